@@ -123,6 +123,22 @@ let () =
           | o :: _ -> "fail:" ^ o
           | [] -> "fail:no-observation" in
         Mlutil.print_model [want_tok; "multi=0"] verdict
+    | "wslong", [_; seconds; gap] ->
+        (* a healthy attached monitor: entitled to every event (history 0, joined first); the connection must be
+           kept alive by the pings whatever the event traffic (writer_arms_pinned: one ping per TICK of a ticker) *)
+        let secs = int_of_string seconds and g = int_of_string gap in
+        let rec count t acc = if t >= secs then acc else count (t + g) (acc + 1) in
+        let n = count 0 0 + 1 in
+        let rec range a b = if a >= b then [] else a :: range (a + 1) b in
+        let want_tok = "T=" ^ String.concat ";" (List.map (fun i -> "s:" ^ Mlutil.hex "a" ^ ":" ^ Mlutil.hex (string_of_int i)) (range 0 n)) in
+        let verdict = match outs with
+          | [t; a] ->
+              if a <> "alive=1" then "fail:healthy-monitor-was-disconnected(keep-alive)"
+              else if t <> want_tok then "fail:monitor-stream-differs-from-its-entitlement"
+              else "ok"
+          | o :: _ -> "fail:" ^ o
+          | [] -> "fail:no-observation" in
+        Mlutil.print_model [want_tok; "alive=1"] verdict
     | "fedstop", [_] ->
         (* shutdown in the middle of a burst: Props/C15 emit_never_blocks, deliver_after_stop_never_blocks,
            sync_after_stop_returns, stopped_hub_is_frozen say nothing may block; the model's answer is "ok" *)
